@@ -706,6 +706,30 @@ fn w_sampled_short() -> bool {
     println!("sampled function declaring 1000 samples with 1 byte of data, applied at 0.9 -> {:?}", short(res));
     false
 }
+/// a literal string made of N line continuations (backslash + LF): the string scanner re-enters itself once per continuation
+fn w_string_continuations() -> bool {
+    let n: usize = std::env::var("DEPTH").ok().and_then(|s| s.parse().ok()).unwrap_or(400000);
+    let mut data = Vec::with_capacity(2 * n + 8);
+    data.push(b'(');
+    for _ in 0..n { data.extend_from_slice(b"\\\n"); }
+    data.extend_from_slice(b"x)");
+    let r = pdf::parser::parse(&data, &pdf::object::NoResolve, pdf::parser::ParseFlags::ANY);
+    println!("literal string with {} line continuations -> {:?}", n, r.map(|p| p.get_debug_name()).map_err(|e| e.to_string()));
+    false       // reproduced = the process dies of a stack overflow before this line
+}
+/// a sampled function whose /Domain is reversed (or NaN-free but min > max): f32::clamp panics
+fn w_sampled_domain() -> bool {
+    use pdf::object::*;
+    let file = load(&[(5, "<< /FunctionType 0 /Domain [1 0] /Range [0 1] /Size [2] /BitsPerSample 8 /Length 2 >>\nstream\nAB\nendstream")]);
+    let r = file.resolver();
+    let f = match Function::from_primitive(pdf::primitive::Primitive::Reference(PlainRef { id: 5, gen: 0 }), &r) { Ok(f) => f, Err(e) => { println!("load failed (fine): {}", e); return false; } };
+    let res = std::panic::catch_unwind(std::panic::AssertUnwindSafe(|| {
+        let mut out = [0.0f32; 1];
+        f.apply(&[0.5], &mut out).map(|_| out[0])
+    }));
+    println!("sampled function with /Domain [1 0] applied at 0.5 -> {}", match &res { Ok(r) => format!("{:?}", r.as_ref().map(|_| ()).map_err(|e| e.to_string())), Err(_) => "PANIC".to_string() });
+    res.is_err()
+}
 /// known finding (C15): colour spaces with a tint function cannot be written back
 fn w_colorspace_function_write() -> bool {
     use pdf::object::*;
@@ -850,6 +874,8 @@ fn main() {
         ("ps_roll", w_ps_roll),
         ("ps_parse", w_ps_parse),
         ("sampled_short", w_sampled_short),
+        ("sampled_domain", w_sampled_domain),
+        ("string_continuations", w_string_continuations),
         ("jbig2_globals_cycle", w_jbig2_globals_cycle),
         ("descendant_fonts_cycle", w_descendant_fonts_cycle),
         ("xref_offset_overflow", w_xref_offset_overflow),
